@@ -44,8 +44,11 @@ def main():
             demo = demos[0]
             shutil.copy(os.path.join(src, demo), os.path.join(dst, demo))
             txt = open(os.path.join(src, demo)).read()
-            m = re.search(r"[Pp]lace(?: this file)? in ([\w/\.]+)", txt)
+            head = "\n".join(txt.splitlines()[:8])
+            m = re.search(r"((?:protocols|pkg|internal)(?:/[\w\.\-]+)*)", head)
             ddir = m.group(1).rstrip("/.") if m else None
+            if ddir and ddir.endswith(".go"):
+                ddir = os.path.dirname(ddir)
             tests = re.findall(r"^func (Test\w+)\(", txt, re.M)
             meta["demo"] = {"file": demo, "dir": ddir, "tests": tests}
             if ddir and tests:
